@@ -972,11 +972,12 @@ def stepper_traces(ck, which, size):
         idx, _, why = line.partition(" ")
         ck.report("stepper:consultations-differ-from-machine", "the stepper is not consulted as the machine of Eval.tla says: " + why[:500],
                   {"case": {"kind": "steplog-trace", "record": int(idx), "why": why}})
-    if rows:
-        bad = [dict(r_) for r_ in rows[:80]]
+    # self-test of the binding: recordings with their first consultation removed must be rejected (rows arrive in
+    # the order the 16 harness processes finish, so pick rows that HAVE more than one consultation)
+    bad = [dict(r_) for r_ in rows if len(r_["log"]) > 1][:80]
+    if bad:
         for b in bad:
-            if len(b["log"]) > 1:
-                b["log"] = b["log"][1:]
+            b["log"] = b["log"][1:]
         path = trace + ".corrupt"
         write_ndjson(path, bad)
         t2 = ck.tlc("TraceStep", cfg(constants={"Which": '"%s"' % which}), env={"VERIF_TRACE": path}, want_cases=False, timeout=900)
